@@ -184,7 +184,7 @@ def _prepare_validator_of_tuple(
     annotation: AttributeAnnotation,
     /,
 ) -> Callable[[Any], Any]:
-    if annotation.arguments[-1].origin == Ellipsis:
+    if annotation.arguments and annotation.arguments[-1].origin == Ellipsis:
         element_validator: Callable[[Any], Any] = attribute_validator(annotation.arguments[0])
         formatted_type: str = str(annotation)
 
